@@ -148,19 +148,22 @@ CLAIMED = {
     technique='Rocq proofs over a string-level model of inputs.py + differential correspondence on adversarial strings',
  ),
  'C09': dict(
-    category='other',
-    text="Mixed. Proved in Rocq: the solver half (C01: a demanded line that signals not-implemented, or is blocked, prevents success - "
-         "for every catalogue/schedule) and, per year, C09_immediate_gates_<year>: for the gates whose own form has a REQUIRED line that "
-         "consults the gate before anything else, the regenerated line evaluates to not-implemented on the store holding only gate=yes "
-         "(hence on every store, by monotonicity of evaluation - argued, not proved) - 14 of 40 gates in 2023. The other gates, read only "
-         "after other reads or only by optional/other-form lines, are decided by exploration: each frozen gate (oracles/gates_<year>.json) "
-         "is flipped to yes in seeded real-form scenarios that consult it and the real solver must not report success; numeric gates "
-         "(foreign tax over the 1116 limit, too many Schedule B payers) likewise. A gate of the frozen oracle that no line reads any "
-         "more is a violation.",
-    design_ref='DESIGN.md §4 C09',
-    note="The path-sensitive guard analysis of DESIGN.md (abstract interpretation proved sound) was not built; this is stated in DESIGN.md §13. "
-         "The gate oracle was proposed from the tree as first built, reviewed against descriptions, then frozen.",
-    technique='Rocq C01 theorem + kernel-evaluated gate probes on the regenerated lines; flipped-gate exploration on the real solver',
+    category='proof',
+    text="Rocq theorems: the solver half is C01 (a demanded line that signals not-implemented, or is blocked, prevents success - every "
+         "catalogue, input and schedule). The form half: Gates.gate_sound - a line whose body consults a gate input FIRST and answers "
+         "not_implemented() when it is affirmative (three syntactic shapes) evaluates to 'not implemented' on EVERY store in which the gate is "
+         "true; per year C09_every_reader_refuses_<y>: for 27 of the 40 frozen gates (22 of 34 in 2021) EVERY line of the regenerated "
+         "catalogue that reads the gate has such a shape (reflective check over the regenerated bodies), so whichever line consults the gate, "
+         "on whatever store, the solve cannot succeed. The list of gates covered on the baseline is frozen (oracles/c09_static_gates.json): one "
+         "that drops out is reported, with a real return that answers yes and still solves when one is found. The remaining 13 gates "
+         "(read after other reads, inside helper functions, or conditional by design - marked in the oracle) and the numeric limits (foreign tax "
+         "over the Form 1116 threshold, more payers than Schedule B rows) are decided by exploration: each gate is flipped to yes in seeded "
+         "real-form scenarios that consult it and the real solver must not report success. A gate of the oracle that no line reads is a violation.",
+    design_ref='DESIGN.md §4 C09, §13',
+    note="Partial: 13 of 40 gates and the numeric limits rest on exploration only. The gate oracle (oracles/gates_<year>.json) was proposed from the "
+         "tree as first built, reviewed against the input descriptions, frozen; three entries are marked conditional and one wrong entry was removed "
+         "(DESIGN.md §13.6). Print Assumptions: closed under the global context.",
+    technique='Rocq: C01 + gate_sound (every store) + reflective shape check of every reading line; flipped-gate exploration on the real solver for the rest',
  ),
  'C08': dict(
     category='proof',
